@@ -491,6 +491,11 @@ def r5(R, repo):
     sets = evid.nodes_of(c, evid.find_calls(sa, '__setattr__', '_register_submodules', 'setattr'))
     reach = c.reach([c.entry], avoid_edges=cut)
     ok = any(r_ in reach for r_ in raises) and not any(s_ in reach for s_ in sets) and c.exit not in reach
+    if not ok:
+      # the three tests may be combined in one condition: evaluate every test under the assumption instead
+      cut2, _ = evid.env_edges(c, {'self._state.in_setup': False, 'self._state.is_initialized': True, "%s.startswith('__')" % name_p: False})
+      may = c.reach([c.entry], avoid_edges=cut2)
+      ok = any(r_ in may for r_ in raises) and not any(s_ in may for s_ in sets) and c.exit not in may
     if ok:
       R.ok(key, sa)
     else:
